@@ -1077,10 +1077,9 @@ class ContentDocument(Document):
     body = self.get_body()
 
     if body is not None: 
-      map(
-        lambda e: e.get_region() and e.get_region().get_id() == region_id and e.set_region(None),
-        body.dfs_iterator()
-      )
+      for e in body.dfs_iterator():
+        if e.get_region() is not None and e.get_region().get_id() == region_id:
+          e.set_region(None)
 
     del self._regions[region_id]
 
